@@ -221,16 +221,11 @@ theorem ArgsLay.length_le {tcs : List (Bytes × List Cell)} {text : Bytes} (h : 
 theorem ArgsLay.length_le_cells {tcs : List (Bytes × List Cell)} {text : Bytes} (h : ArgsLay tcs text) :
     tcs.length ≤ (allCells tcs).length := by
   induction h with
-  | one t cs tail ht _ => have := ht.cells.length_pos; simp [allCells]; omega
+  | one t cs tail ht _ => have := ht.length_pos; simp [allCells]; omega
   | cons t cs g more text ht _ _ ih =>
-    have := ht.cells.length_pos
+    have := ht.length_pos
     simp only [allCells, List.map_cons, List.flatten_cons, List.length_cons, List.length_append] at ih ⊢
     omega
-
-theorem canPrecedeRange_argCells {cs : List Cell} (h : ArgCells cs) : ∃ b, canPrecedeRange cs = .ok b := by
-  cases h with
-  | scalar c hsc => exact ⟨true, canPrecedeRange_scalar c [] hsc⟩
-  | array ety es _ => exact ⟨false, by simp [canPrecedeRange, deref, bind, Except.bind, pure, Except.pure]⟩
 
 theorem advance_append (t rest : Bytes) : advance (t ++ rest) t.length = .ok rest := by
   simp [advance]
@@ -241,11 +236,11 @@ theorem scanLoop_step (t : Bytes) (cs : List Cell) (rest : Bytes) (f n i : Nat) 
     (hsk : skipSpaceComments (rest.length + 1) rest = .ok sk) :
     ∃ b, C11.scanArgValsLoop (f + 1) (t ++ rest) n i prevOk done rd =
       C11.scanArgValsLoop f (rest.drop sk) n (i + cs.length) b (done ++ cs) (rd + t.length + sk) := by
-  obtain ⟨b, hb⟩ := canPrecedeRange_argCells ht.cells
+  obtain ⟨b, hb⟩ := ht.cpr
   refine ⟨b, ?_⟩
-  have hscan := ht.scan rest (t ++ rest).length done.reverse (if prevOk then i else 0) true hs
-  have hoff := nextArgOffset_argCells cs.length [] ht.cells
-  simp only [List.append_nil] at hoff
+  have hscan := ht.scan rest ((t ++ rest).length + 1) done.reverse (if prevOk then i else 0) true hs
+    (by simp only [List.length_append]; omega)
+  have hoff := ht.off
   conv => lhs; unfold C11.scanArgValsLoop
   simp only [hi, ↓reduceIte, hscan, hb, advance_append, hoff, hsk, bind, Except.bind, pure, Except.pure,
     ne_eq, not_true_eq_false]
@@ -259,7 +254,7 @@ theorem scanLoop_argsLay {tcs : List (Bytes × List Cell)} {text : Bytes} (h : A
   | one t cs tail ht htail =>
     intro fuel n i prevOk done rd hn hf
     obtain ⟨f, rfl⟩ : ∃ f, fuel = f + 1 := ⟨fuel - 1, by omega⟩
-    have hpos := ht.cells.length_pos
+    have hpos := ht.length_pos
     simp only [allCells, List.map_cons, List.map_nil, List.flatten_cons, List.flatten_nil, List.append_nil] at hn ⊢
     obtain ⟨b, hstep⟩ := scanLoop_step t cs tail f n i prevOk done rd tail.length ht htail.sep (by omega)
       (scanSkip_tail htail)
@@ -272,7 +267,7 @@ theorem scanLoop_argsLay {tcs : List (Bytes × List Cell)} {text : Bytes} (h : A
   | cons t cs g more text ht hg hmore ih =>
     intro fuel n i prevOk done rd hn hf
     obtain ⟨f, rfl⟩ : ∃ f, fuel = f + 1 := ⟨fuel - 1, by omega⟩
-    have hpos := ht.cells.length_pos
+    have hpos := ht.length_pos
     have hstart := hmore.start
     simp only [allCells, List.map_cons, List.flatten_cons, List.length_append] at hn ⊢
     have hsep : Sep (gapsBytes g ++ text) := by
@@ -298,7 +293,8 @@ theorem countLoop_step (t : Bytes) (cs : List Cell) (rest body : Bytes) (f : Nat
       C11.countLoop f (some body) (some (t ++ rest)) (num + cs.length) := by
   obtain ⟨h0, _, hn0, _, _, _, h47, _⟩ := ht.start
   have hhd : hd (t ++ rest) = hd t := hd_append_of_ne_nil _ _ h0
-  obtain ⟨r, hr, hsrc, hskipped, _⟩ := ht.skip rest (t ++ rest).length 0 recent true false hs
+  obtain ⟨r, hr, hsrc, hskipped, _⟩ := ht.skip rest ((t ++ rest).length + 1) 0 recent true false hs
+    (by simp only [List.length_append]; omega)
   conv => lhs; unfold C11.countLoop
   simp only [hhd, ne_eq, hn0, not_false_eq_true, h47, and_self, ↓reduceIte, hr, bind, Except.bind, hsrc]
   have hnot : ¬ (body.length ≥ (t ++ rest).length) := by omega
